@@ -578,6 +578,16 @@ where
 				"Recipient address on slate does not match original recipient address".to_owned(),
 			));
 		}
+		// the log entry may have been written from the very slate being checked
+		// (outputs locked with the reply): also compare with what was asked for
+		if let Some(ref a) = context.payment_proof_recipient_address {
+			if *a != p.receiver_address {
+				return Err(Error::PaymentProof(
+					"Recipient address on slate does not match requested recipient address"
+						.to_owned(),
+				));
+			}
+		}
 		let msg = payment_proof_message(
 			slate.amount,
 			&slate.calc_excess(&keychain.secp())?,
